@@ -62,6 +62,17 @@ CHECKS = {
             'bookkeeping helpers (Python with and without NumPy, C length and loop order through ctypes).',
             'Trusts vlib/ref.py for entry values; the exhaustive leg is complete only for the stated n.',
             'DESIGN.md §3 C06'),
+    'C07': ('schedule-owning harness: cooperative replacement of the OpenMP runtime (GOMP ABI on ucontext coroutines, '
+            'pre-emption at every basic block via -fsanitize-coverage=trace-pc) driven by Hypothesis-generated schedule '
+            'scripts; plus real-libgomp / multiprocessing differential runs and an exhaustive plan-invariant leg',
+            'Four legs: (coop) all six *_parallel C functions under generated thread counts 1..64, chunk scripts and '
+            'basic-block interleavings, compared bitwise with their serial counterparts into canary-guarded buffers; '
+            '(omp) the staged extension with the real libgomp at 1..64 threads in a separate interpreter, repeated, '
+            'bitwise vs serial; (mp) multiprocessing pools 1..16 for both single-pair engines; (plan) every block for '
+            'n <= 6/7: the per-row output slots are disjoint and tile the output.',
+            'Pre-emption is at basic-block (not instruction) granularity and follows GCC\'s lowering; weak-memory effects '
+            'are out of reach; the real-runtime legs only sample schedules.',
+            'DESIGN.md §3 C07, §2.8b'),
     'C08': ('sanitizer-instrumented native harness: exhaustive structural sweep (gcc ASan+UBSan+OpenMP) and coverage-guided '
             'fuzzing (clang libFuzzer+ASan+UBSan) of the repository C sources through one structured entry function',
             'native/c08_harness.c decodes bytes into structured arguments for 14 groups of exported C routines, allocates '
@@ -114,7 +125,7 @@ def main():
                 'thorough_cmd': '/venv/bin/python check.py %s --tier thorough' % pid,
                 'evidence_file': 'evidence/%s.json' % pid,
                 'replay_cmd_template': '/venv/bin/python check.py %s --replay {path}' % pid,
-                'engine': 'native-asan' if pid == 'C08' else 'pbt-core',
+                'engine': 'native-asan' if pid == 'C08' else ('coop-omp' if pid == 'C07' else 'pbt-core'),
                 'level_claimed': {'category': 'exploration', 'text': text, 'design_ref': ref},
                 'level_note': note,
                 'technique': tech,
@@ -138,6 +149,8 @@ def main():
             {'name': 'pbt-core', 'path': 'vlib/', 'serves_properties': sorted(CHECKS),
              'kind_free_text': 'Hypothesis-driven generated search with reference oracles, collect->bucket->shrink, '
                                'JSON replay files, sharded over 16 processes'},
+            {'name': 'coop-omp', 'path': 'native/omp_coop.c', 'serves_properties': ['C07'],
+             'kind_free_text': 'cooperative GOMP runtime on ucontext + trace-pc pre-emption: schedules are generated values'},
             {'name': 'native-asan', 'path': 'native/c08_harness.c', 'serves_properties': ['C08'],
              'kind_free_text': 'clang libFuzzer + gcc sweep of the repository C sources under ASan/UBSan, one structured '
                                'entry function, buffers at exactly the documented sizes'},
